@@ -117,3 +117,21 @@ void h_ser_rt(void)
     __CPROVER_assert(r->header.flags == m->header.flags && r->header.entry_point == m->header.entry_point, "C10.rt header flags and entry point");
     VERIF_COVER(r != NULL);
 }
+
+/* C12.tail.shape : a file written by the real serializer (fixed shape, arbitrary contents) with ONE arbitrary byte appended: the
+ * real loader accepts it only if the checksum over EVERYTHING after the header - the tail included - equals the stored one
+ * (the property's "extended tail" case; a loader that checksums only up to the end of the last section accepts every tail). */
+void h_ser_tail(void)
+{
+    NvmModule *m = build_module();
+    uint32_t n1 = 0;
+    uint8_t *f1 = nvm_serialize(m, &n1);
+    __CPROVER_assume(f1 != NULL);
+    uint8_t *f2 = malloc((size_t)n1 + 1); __CPROVER_assume(f2 != NULL);
+    memcpy(f2, f1, n1);
+    f2[n1] = nondet_u8();
+    NvmModule *r = nvm_deserialize(f2, n1 + 1);
+    __CPROVER_assert(r == NULL || nvm_crc32(f2 + NVM_HEADER_SIZE, n1 + 1 - NVM_HEADER_SIZE) == le_read_u32(f2 + 28),
+                     "C12.tail an extended file is accepted only if the checksum over the whole body, tail included, matches");
+    VERIF_COVER(r == NULL);
+}
